@@ -61,6 +61,12 @@ Proof. intros H. unfold parse. rewrite H. reflexivity. Qed.
 Lemma hex_string_length b : List.length (hex_string b) = (2 * List.length b)%nat.
 Proof. induction b as [|x b IH]; cbn [hex_string flat_map List.length app]; [reflexivity|]. unfold hex_string in IH. rewrite IH. lia. Qed.
 
+(* --------------------------------------------------- CommandStatus.String *)
+Lemma command_status_string_ok named s : exists t, command_status_string named s = Ok t.
+Proof. unfold command_status_string. destruct (find_name named s); eexists; reflexivity. Qed.
+Lemma hex8_length s : List.length (hex8 s) = 8%nat.
+Proof. reflexivity. Qed.
+
 (* -------------------------------------- ReadSequence, ReadCommandStatus, Resp *)
 Lemma read_sequence_ok vs : exists s, read_sequence vs = Ok s.
 Proof. unfold read_sequence. destruct (get_header vs); eexists; reflexivity. Qed.
